@@ -168,3 +168,67 @@ def load_bad_ff(p, n, definition, k):
     with open(n, "w") as g:
         g.write("<ForceField></ForceField>\n")
     return Forcefield("myff", definition, p, n)
+
+
+# ---------------------------------------------------------------- the naming map: <useresname> rules (ForcefieldHandler.endElement)
+# "as resolved through the documented residue/atom naming map": a residue rule whose pattern matches several canonical names
+# (CHARMM `[RD]A[35]?` -> ADE) gives EACH of them its own atom table holding the source residue's rows; a later rule for a
+# subset (`DA3` gets the 3TER overlay) changes that subset only.  The regular-expression matcher is external (stubbed: the
+# pattern "[RD]A" matches DA and RA, any other pattern matches the name that equals it); everything else is the real code.
+BIND["ForcefieldHandler"] = "pdb2pqr.forcefield:ForcefieldHandler"
+
+
+class Match_:
+    def __init__(self, s):
+        self.string = s
+
+    def group(self, i):
+        return self.string
+
+
+def stub_find_matching_names(cls, regname, map_):
+    out = []
+    for name in map_:
+        if (regname == "[RD]A" and (name == "DA" or name == "RA")) or name == regname:
+            out.append(Match_(name))
+    return out
+
+
+def NROW(nm):
+    return Named(nm, Obj("pdb2pqr.forcefield:ForcefieldAtom", name=Str, resname=Str, charge=Real, radius=Real, group=Str))
+
+
+def names_two_rules(h):
+    h.oldresname = "ADE"
+    h.newresname = "[RD]A"
+    h.endElement("residue")
+    h.oldresname = "3TER"
+    h.newresname = "DA"
+    h.endElement("residue")
+    return h.map
+
+
+harness("C01",
+        params={"h": Obj("pdb2pqr.forcefield:ForcefieldHandler", curelement=Const(""), atommap=DictOf(),
+                         oldresname=Const(None), newresname=Const(None), oldatomname=Const(None), newatomname=Const(None),
+                         reference=DictOf(("DA", Const(1)), ("RA", Const(1)), ("ALA", Const(1))),
+                         map=DictOf(("ADE", Obj("pdb2pqr.forcefield:ForcefieldResidue", name=Const("ADE"),
+                                                atoms=DictOf(("N1", NROW("row_n1")), ("O3'", NROW("row_o3"))))),
+                                    ("3TER", Obj("pdb2pqr.forcefield:ForcefieldResidue", name=Const("3TER"),
+                                                 atoms=DictOf(("O3'", NROW("row_ter")), ("H3T", NROW("row_h3t")))))))},
+        requires=[],
+        ensures=[
+            # both names exist, each with the source residue's rows (an alias exposes a real row, never a copy with new values)
+            "'DA' in result and 'RA' in result and 'ALA' not in result",
+            "result['RA'].atoms['N1'] is row_n1 and result['RA'].atoms[\"O3'\"] is row_o3",
+            "result['DA'].atoms['N1'] is row_n1",
+            # the later rule for DA alone lands on DA ...
+            "result['DA'].atoms[\"O3'\"] is row_ter and result['DA'].atoms['H3T'] is row_h3t",
+            # ... and on nobody else: RA and the source residue keep their own tables
+            "'H3T' not in result['RA'].atoms and 'H3T' not in result['ADE'].atoms and result['ADE'].atoms[\"O3'\"] is row_o3",
+            "result['DA'] is not result['RA'] and result['DA'].atoms is not result['RA'].atoms",
+            # the rows themselves are never written
+            "row_o3.charge == old(row_o3.charge) and row_ter.charge == old(row_ter.charge)",
+        ],
+        stubs={"pdb2pqr.forcefield:ForcefieldHandler.find_matching_names": "stub_find_matching_names"},
+        name="ForcefieldHandler.endElement.two_rules", native=False)(names_two_rules)
